@@ -151,6 +151,9 @@ class Select(ASTNode):
                     ]
                     args_str = ', '.join(args)
                     value = f'{value.type}({args_str})'
+                elif isinstance(value, ASTNode):
+                    # USING key = identifier
+                    value = value.to_string()
                 else:
                     value = json.dumps(value)
 
